@@ -27,6 +27,7 @@ structure Sent (proc : Tid → Pid) (s : St) : Prop where
   a5 : s.removed = true → s.w = .done ∧ s.sinkStopped = true
   a6 : ∀ t, t ≠ workerTid → postSent (s.pc t) = true → proc t = 0
   a7 : ∀ k, s.sentMark = some k → s.stopCalled 0 = true
+  a8 : ∀ t, t ≠ workerTid → s.pc t = .s5 → s.sinkStopped = true
   b1 : ∀ t, t ≠ workerTid → inStop (s.pc t) = true → s.stopCalled (proc t) = true
   b2 : ∀ t u, t ≠ workerTid → u ≠ workerTid → inStop (s.pc t) = true → inStop (s.pc u) = true →
         proc t = proc u → t = u
@@ -36,15 +37,274 @@ theorem sent_init (proc : Tid → Pid) : Sent proc ({} : St) := by
 
 theorem sent_stepW {proc : Tid → Pid} {s s' : St} {lab : Lab} (h : Sent proc s)
     (hs : stepW s lab = some s') : Sent proc s' := by
-  obtain ⟨a1, a2, a3, a4, a5, a6, a7, b1, b2⟩ := h
+  obtain ⟨a1, a2, a3, a4, a5, a6, a7, a8, b1, b2⟩ := h
   w_arms hs <;>
-    (refine ⟨?_, ?_, a3, ?_, ?_, a6, a7, b1, b2⟩
+    (refine ⟨?_, ?_, a3, ?_, ?_, a6, a7, a8, b1, b2⟩
      · intro hn; have := a1 hn; simp_all [List.count_cons]
      · intro k hk
-       have := a2 k hk
-       have := a1
-       simp_all [heldOf, cntBefore, List.count_cons] <;> (try omega) <;> (try grind)
+       rcases a2 k hk with ⟨c, wd, e⟩ | ⟨c, wd, e⟩ <;>
+         simp [*, heldOf, cntBefore, List.count_cons] at c wd e ⊢ <;> (try omega) <;> (try grind)
      · intro u hu hp; have := a4 u hu hp; simp_all
      · intro hr; have := a5 hr; simp_all)
+
+macro "sent_simp" : tactic => `(tactic| (
+  simp_all [setPc, upd, preSent, postJoin, postSent, inStop, heldOf, cntBefore, List.count_cons,
+    List.count_append]))
+
+theorem sent_a1P {proc : Tid → Pid} {s s' : St} {t : Tid} {lab : Lab} (h : Sent proc s) (ht : t ≠ workerTid)
+    (hs : stepP proc s t lab = some s') :
+    s'.sentMark = none → s'.queue.count .sentinel = 0 ∧ s'.w ≠ .done := by
+  have a1 := h.a1
+  p_arms hs <;>
+    (intro hn
+     first
+     | exact a1 hn
+     | (simp only [setPc] at hn ⊢
+        have := a1 hn
+        simp_all [List.count_append, List.count_cons]; done)
+     | (simp [setPc] at hn; done))
+
+theorem sent_a2P {proc : Tid → Pid} {s s' : St} {t : Tid} {lab : Lab} (hf : Fifo s) (h : Sent proc s)
+    (ht : t ≠ workerTid) (hs : stepP proc s t lab = some s') :
+    ∀ k, s'.sentMark = some k →
+        (s'.queue.count .sentinel = 1 ∧ s'.w ≠ .done ∧
+          s'.sink.length + (heldOf s'.w).length + cntBefore .sentinel s'.queue = k) ∨
+        (s'.queue.count .sentinel = 0 ∧ s'.w = .done ∧ s'.sink.length = k) := by
+  obtain ⟨a1, a2, a3, a4, a5, a6, a7, a8, b1, b2⟩ := h
+  have hlen : s.putLog.length = s.sink.length + (heldOf s.w).length + (msgsOf s.queue).length := by
+    unfold Fifo at hf; rw [← hf]; simp [List.length_append]; omega
+  clear hf
+  have a3t := a3 t ht
+  p_arms hs <;>
+    (intro k hk
+     first
+     | exact a2 k hk
+     | (simp only [setPc] at hk ⊢
+        rcases a2 k hk with ⟨c, wd, e⟩ | ⟨c, wd, e⟩
+        · left
+          simp only [List.count_append, List.count_cons, List.count_nil, reduceCtorEq, beq_iff_eq,
+            if_false, Nat.add_zero, cntBefore_of_count_pos _ _ _ c]
+          exact ⟨by simpa using c, wd, e⟩
+        · right
+          simp only [List.count_append, List.count_cons, List.count_nil, reduceCtorEq, beq_iff_eq,
+            if_false, Nat.add_zero]
+          exact ⟨by simpa using c, wd, e⟩)
+     | (have := a1; sent_simp; (try (rw [cntBefore_append_self' _ _ (by simp_all)])); (try omega); (try grind)))
+
+/-! frame lemmas for the clauses quantified over threads -/
+
+theorem a4_frame {s s' : St} {t : Tid} {p' : Pc} (hpc : s'.pc = upd s.pc t p') (hw : s'.w = s.w)
+    (hnew : postJoin p' = true → s.w = .done)
+    (old : ∀ u, u ≠ workerTid → postJoin (s.pc u) = true → s.w = .done) :
+    ∀ u, u ≠ workerTid → postJoin (s'.pc u) = true → s'.w = .done := by
+  intro u hu hp
+  rw [hw]; rw [hpc] at hp
+  by_cases e : u = t
+  · subst e; simp at hp; exact hnew hp
+  · simp [e] at hp; exact old u hu hp
+
+theorem a6_frame {proc : Tid → Pid} {s s' : St} {t : Tid} {p' : Pc} (hpc : s'.pc = upd s.pc t p')
+    (hnew : postSent p' = true → proc t = 0)
+    (old : ∀ u, u ≠ workerTid → postSent (s.pc u) = true → proc u = 0) :
+    ∀ u, u ≠ workerTid → postSent (s'.pc u) = true → proc u = 0 := by
+  intro u hu hp
+  rw [hpc] at hp
+  by_cases e : u = t
+  · subst e; simp at hp; exact hnew hp
+  · simp [e] at hp; exact old u hu hp
+
+theorem a3_frame {proc : Tid → Pid} {s s' : St} {t : Tid} {p' : Pc} (hpc : s'.pc = upd s.pc t p')
+    (hm : s'.sentMark = s.sentMark)
+    (hnew : preSent p' = true → proc t = 0 → s.sentMark = none)
+    (old : ∀ u, u ≠ workerTid → proc u = 0 → preSent (s.pc u) = true → s.sentMark = none) :
+    ∀ u, u ≠ workerTid → proc u = 0 → preSent (s'.pc u) = true → s'.sentMark = none := by
+  intro u hu hz hp
+  rw [hm]; rw [hpc] at hp
+  by_cases e : u = t
+  · subst e; simp at hp; exact hnew hp hz
+  · simp [e] at hp; exact old u hu hz hp
+
+theorem b1_frame {proc : Tid → Pid} {s s' : St} {t : Tid} {p' : Pc} (hpc : s'.pc = upd s.pc t p')
+    (hmono : ∀ q, s.stopCalled q = true → s'.stopCalled q = true)
+    (hnew : inStop p' = true → s'.stopCalled (proc t) = true)
+    (old : ∀ u, u ≠ workerTid → inStop (s.pc u) = true → s.stopCalled (proc u) = true) :
+    ∀ u, u ≠ workerTid → inStop (s'.pc u) = true → s'.stopCalled (proc u) = true := by
+  intro u hu hp
+  rw [hpc] at hp
+  by_cases e : u = t
+  · subst e; simp at hp; exact hnew hp
+  · simp [e] at hp; exact hmono _ (old u hu hp)
+
+theorem b2_frame {proc : Tid → Pid} {s s' : St} {t : Tid} {p' : Pc} (ht : t ≠ workerTid)
+    (hpc : s'.pc = upd s.pc t p')
+    (hnew : inStop p' = true → inStop (s.pc t) = true ∨
+      ∀ u, u ≠ workerTid → u ≠ t → inStop (s.pc u) = true → proc u ≠ proc t)
+    (old : ∀ u v, u ≠ workerTid → v ≠ workerTid → inStop (s.pc u) = true → inStop (s.pc v) = true →
+      proc u = proc v → u = v) :
+    ∀ u v, u ≠ workerTid → v ≠ workerTid → inStop (s'.pc u) = true → inStop (s'.pc v) = true →
+      proc u = proc v → u = v := by
+  intro u v hu hv hpu hpv hpr
+  rw [hpc] at hpu hpv
+  by_cases eu : u = t
+  · by_cases ev : v = t
+    · rw [eu, ev]
+    · subst eu
+      simp at hpu; simp [ev] at hpv
+      rcases hnew hpu with h | h
+      · exact old u v hu hv h hpv hpr
+      · exact absurd hpr.symm (h v hv ev hpv)
+  · by_cases ev : v = t
+    · subst ev
+      simp at hpv; simp [eu] at hpu
+      rcases hnew hpv with h | h
+      · exact old u v hu hv hpu h hpr
+      · exact absurd hpr (h u hu eu hpu)
+    · simp [eu] at hpu; simp [ev] at hpv
+      exact old u v hu hv hpu hpv hpr
+
+theorem a8_frame {s s' : St} {t : Tid} {p' : Pc} (hpc : s'.pc = upd s.pc t p')
+    (hmono : s.sinkStopped = true → s'.sinkStopped = true)
+    (hnew : p' = .s5 → s'.sinkStopped = true)
+    (old : ∀ u, u ≠ workerTid → s.pc u = .s5 → s.sinkStopped = true) :
+    ∀ u, u ≠ workerTid → s'.pc u = .s5 → s'.sinkStopped = true := by
+  intro u hu hp
+  rw [hpc] at hp
+  by_cases e : u = t
+  · subst e; simp at hp; exact hnew hp
+  · simp [e] at hp; exact hmono (old u hu hp)
+
+theorem sent_a4P {proc : Tid → Pid} {s s' : St} {t : Tid} {lab : Lab} (h : Sent proc s) (ht : t ≠ workerTid)
+    (hs : stepP proc s t lab = some s') :
+    ∀ u, u ≠ workerTid → postJoin (s'.pc u) = true → s'.w = .done := by
+  have a4 := h.a4
+  p_arms hs <;>
+    (refine a4_frame rfl rfl ?_ a4
+     intro hp
+     first
+     | (simp [postJoin] at hp; done)
+     | assumption
+     | (refine a4 t ht ?_; simp [*, postJoin]; done))
+
+theorem sent_a6P {proc : Tid → Pid} {s s' : St} {t : Tid} {lab : Lab} (h : Sent proc s) (ht : t ≠ workerTid)
+    (hs : stepP proc s t lab = some s') :
+    ∀ u, u ≠ workerTid → postSent (s'.pc u) = true → proc u = 0 := by
+  have a6 := h.a6
+  p_arms hs <;>
+    (refine a6_frame rfl ?_ a6
+     intro hp
+     first
+     | (simp [postSent] at hp; done)
+     | (rename_i hc; exact hc.1)
+     | (refine a6 t ht ?_; simp [*, postSent]; done))
+
+theorem sent_a8P {proc : Tid → Pid} {s s' : St} {t : Tid} {lab : Lab} (h : Sent proc s) (ht : t ≠ workerTid)
+    (hs : stepP proc s t lab = some s') :
+    ∀ u, u ≠ workerTid → s'.pc u = .s5 → s'.sinkStopped = true := by
+  have a8 := h.a8
+  p_arms hs <;>
+    (refine a8_frame rfl ?_ ?_ a8
+     · first | exact id | (intro _; rfl)
+     · intro hp
+       first
+       | (simp at hp; done)
+       | rfl
+       | (refine a8 t ht ?_; simp [*]; done))
+
+theorem sent_b1P {proc : Tid → Pid} {s s' : St} {t : Tid} {lab : Lab} (h : Sent proc s) (ht : t ≠ workerTid)
+    (hs : stepP proc s t lab = some s') :
+    ∀ u, u ≠ workerTid → inStop (s'.pc u) = true → s'.stopCalled (proc u) = true := by
+  have b1 := h.b1
+  p_arms hs <;>
+    (refine b1_frame rfl ?_ ?_ b1
+     · first
+       | exact fun _ hq => hq
+       | (intro q hq; simp only [upd]; split <;> simp_all)
+     · intro hp
+       first
+       | (simp [inStop] at hp; done)
+       | (simp [upd]; done)
+       | (refine b1 t ht ?_; simp [*, inStop]; done))
+
+theorem sent_b2P {proc : Tid → Pid} {s s' : St} {t : Tid} {lab : Lab} (h : Sent proc s) (ht : t ≠ workerTid)
+    (hs : stepP proc s t lab = some s') :
+    ∀ u v, u ≠ workerTid → v ≠ workerTid → inStop (s'.pc u) = true → inStop (s'.pc v) = true →
+      proc u = proc v → u = v := by
+  have b1 := h.b1
+  have b2 := h.b2
+  p_arms hs <;>
+    (refine b2_frame ht rfl ?_ b2
+     intro hp
+     first
+     | (simp [inStop] at hp; done)
+     | (left; simp [*, inStop]; done)
+     | (right
+        intro u hu _ hpu hpr
+        have := b1 u hu hpu
+        simp_all))
+
+theorem sent_a3P {proc : Tid → Pid} {s s' : St} {t : Tid} {lab : Lab} (h : Sent proc s) (ht : t ≠ workerTid)
+    (hs : stepP proc s t lab = some s') :
+    ∀ u, u ≠ workerTid → proc u = 0 → preSent (s'.pc u) = true → s'.sentMark = none := by
+  have a3 := h.a3
+  have a7 := h.a7
+  have b2 := h.b2
+  p_arms hs <;>
+    first
+    | (refine a3_frame rfl rfl ?_ a3
+       intro hp hz
+       first
+       | (simp [preSent] at hp; done)
+       | (refine a3 t ht hz ?_; simp [*, preSent]; done)
+       | (cases hm : s.sentMark with
+          | none => rfl
+          | some k =>
+            have h7 := a7 k hm
+            rename_i hc
+            rw [hz] at hc; rw [hc] at h7; cases h7))
+    | (intro u hu hz hp
+       exfalso
+       simp only [setPc] at hp
+       by_cases e : u = t
+       · subst e; simp [preSent] at hp
+       · simp [upd, e] at hp
+         have hu2 : inStop (s.pc u) = true := by
+           cases hq : s.pc u <;> rw [hq] at hp <;> simp [preSent, inStop] at hp ⊢
+         have ht2 : inStop (s.pc t) = true := by simp [*, inStop]
+         rename_i hc
+         exact e (b2 u t hu ht hu2 ht2 (by rw [hz, hc.1])))
+
+theorem sent_a5P {proc : Tid → Pid} {s s' : St} {t : Tid} {lab : Lab} (h : Sent proc s) (ht : t ≠ workerTid)
+    (hs : stepP proc s t lab = some s') :
+    s'.removed = true → s'.w = .done ∧ s'.sinkStopped = true := by
+  have a5 := h.a5
+  have a4 := h.a4 t ht
+  have a8 := h.a8 t ht
+  p_arms hs <;>
+    (intro hr
+     first
+     | exact a5 hr
+     | (have := a5 hr; exact ⟨this.1, rfl⟩)
+     | (refine ⟨a4 ?_, a8 ?_⟩ <;> simp [*, postJoin]; done))
+
+theorem sent_a7P {proc : Tid → Pid} {s s' : St} {t : Tid} {lab : Lab} (h : Sent proc s) (ht : t ≠ workerTid)
+    (hs : stepP proc s t lab = some s') :
+    ∀ k, s'.sentMark = some k → s'.stopCalled 0 = true := by
+  have a7 := h.a7
+  have b1 := h.b1 t ht
+  p_arms hs <;>
+    (intro k hk
+     first
+     | exact a7 k hk
+     | (have := a7 k hk; simp only [upd]; split <;> simp_all; done)
+     | (rename_i hc; have := b1 (show inStop (s.pc t) = true by simp [*, inStop]); rw [hc.1] at this; exact this))
+
+theorem sent_step {proc : Tid → Pid} {s s' : St} {t : Tid} {lab : Lab} (hf : Fifo s) (h : Sent proc s)
+    (hs : step proc s t lab = some s') : Sent proc s' := by
+  unfold step at hs
+  split at hs
+  · exact sent_stepW h hs
+  · rename_i ht
+    exact ⟨sent_a1P h ht hs, sent_a2P hf h ht hs, sent_a3P h ht hs, sent_a4P h ht hs, sent_a5P h ht hs,
+      sent_a6P h ht hs, sent_a7P h ht hs, sent_a8P h ht hs, sent_b1P h ht hs, sent_b2P h ht hs⟩
 
 end Queue
